@@ -31,6 +31,8 @@ type Program struct {
 	Globals   map[string][]*Clause     // pkgPath -> global invariants
 	CFiles    []*ContractFile
 	MirrorUse []string // contract files taken from the mirror because /repo lacks them
+	ctrOverride map[*ssa.Function]*FuncContract // function literals whose contract follows their variable (rebindClosures)
+	Renamed   []string // contracts bound to a renamed function (see rebindRenamed)
 	MirrorDiff []string
 	fnByKey   map[string]*ssa.Function
 	Axioms    []axiomDef
@@ -130,6 +132,7 @@ func loadProgram(repoDir, verifDir string) (*Program, error) {
 	if err := p.loadContracts(); err != nil {
 		return nil, err
 	}
+	p.rebindRenamed()
 	return p, nil
 }
 
@@ -203,6 +206,9 @@ func (p *Program) addContractFile(cf *ContractFile) {
 }
 
 func (p *Program) contractFor(fn *ssa.Function) *FuncContract {
+	if fc, ok := p.ctrOverride[fn]; ok {
+		return fc
+	}
 	return p.Contracts[keyOfFunction(fn)]
 }
 
